@@ -399,6 +399,8 @@ struct Start {
     cnf: Cnf,
     n: u32,
     desc: String,
+    /// a scripted history instead of random edits
+    script: Option<Vec<Edit>>,
 }
 
 fn all_clauses(n: u32) -> Vec<Vec<i32>> {
@@ -433,7 +435,7 @@ fn starts(ctx: &Ctx, rng: &mut Rng) -> Vec<Start> {
         let mut tt = 1u64;
         while tt <= total {
             let extra = if rng.chance(1, 5) { 1 } else { 0 };
-            v.push(Start { cnf: cnf_of_table(tt, n), n: n + extra, desc: format!("table n={} tt={} extra={}", n, tt, extra) });
+            v.push(Start { cnf: cnf_of_table(tt, n), n: n + extra, desc: format!("table n={} tt={} extra={}", n, tt, extra), script: None });
             tt += step;
         }
     }
@@ -447,7 +449,7 @@ fn starts(ctx: &Ctx, rng: &mut Rng) -> Vec<Start> {
                 if !satisfiable(&cnf.iter().map(|c| norm(c)).collect::<Vec<_>>(), n) {
                     continue;
                 }
-                v.push(Start { cnf, n, desc: format!("clauseset n={} i={} j={}", n, i, j) });
+                v.push(Start { cnf, n, desc: format!("clauseset n={} i={} j={}", n, i, j), script: None });
                 if !quick && n <= 3 {
                     for k in (j + 1)..cls.len() {
                         if (i + j + k) % 5 != 0 {
@@ -455,7 +457,7 @@ fn starts(ctx: &Ctx, rng: &mut Rng) -> Vec<Start> {
                         }
                         let cnf = vec![cls[i].clone(), cls[j].clone(), cls[k].clone()];
                         if satisfiable(&cnf.iter().map(|c| norm(c)).collect::<Vec<_>>(), n) {
-                            v.push(Start { cnf, n, desc: format!("clauseset n={} i={} j={} k={}", n, i, j, k) });
+                            v.push(Start { cnf, n, desc: format!("clauseset n={} i={} j={} k={}", n, i, j, k), script: None });
                         }
                     }
                 }
@@ -470,7 +472,32 @@ fn starts(ctx: &Ctx, rng: &mut Rng) -> Vec<Start> {
         let extra = if rng.chance(1, 4) { 1 } else { 0 };
         let mut cnf = random_cnf(rng, n, m, maxw);
         cnf.retain(|c| !c.is_empty());
-        v.push(Start { cnf, n: n + extra, desc: format!("random#{} n={} m={} w<={} extra={}", k, n, m, maxw, extra) });
+        v.push(Start { cnf, n: n + extra, desc: format!("random#{} n={} m={} w<={} extra={}", k, n, m, maxw, extra), script: None });
+    }
+    // (d) independent groups {1,2} {3,4} {5,6}: E1 adds or removes a clause linking two groups, E2
+    //     edits a third group, E3 is the inverse of E1 (not the latest edit), E4 the inverse of E2
+    let lit = |rng: &mut Rng, v: i32| if rng.coin() { v } else { -v };
+    for k in 0..(if quick { 24 } else { 96 }) {
+        let mut cnf: Cnf = Vec::new();
+        for g in 0..3 {
+            let (a, b) = (2 * g + 1, 2 * g + 2);
+            cnf.push(vec![lit(rng, a), lit(rng, b)]);
+            if rng.coin() {
+                cnf.push(vec![lit(rng, a), lit(rng, b)]);
+            }
+        }
+        let (la, lb) = (*rng.pick(&[1, 2]), *rng.pick(&[3, 4]));
+        let link = vec![lit(rng, la), lit(rng, lb)];
+        let other = vec![lit(rng, 5), lit(rng, 6)];
+        let link_present = rng.coin();
+        if link_present {
+            cnf.push(link.clone());
+        }
+        let other_present = cnf.iter().any(|c| norm(c) == norm(&other));
+        let e1: Edit = vec![(link.clone(), !link_present)];
+        let e2: Edit = vec![(other.clone(), !other_present)];
+        let script = vec![e1.clone(), e2.clone(), invert(&e1), invert(&e2)];
+        v.push(Start { cnf, n: 6, desc: format!("groups#{} link={:?} present={} other={:?}", k, link, link_present as u8, other), script: Some(script) });
     }
     v
 }
@@ -527,14 +554,24 @@ fn run_cnf(ctx: &Ctx, rng: &mut Rng, out: &mut dyn Write) {
                     let mut cl = cl0.clone();
                     let mut n = st.n;
                     let mut prev: Option<Edit> = None;
-                    let steps = 1 + rng.below(max_steps as u64) as usize;
+                    let steps = match &st.script {
+                        Some(sc) => sc.len(),
+                        None => 1 + rng.below(max_steps as u64) as usize,
+                    };
                     let mut done = 0;
                     let mut tries = 0;
                     while done < steps && tries < 40 {
                         tries += 1;
-                        let e = next_edit(rng, &cl, n, prev.as_ref());
+                        let e = match &st.script {
+                            Some(sc) if done < sc.len() => sc[done].clone(),
+                            Some(_) => break,
+                            None => next_edit(rng, &cl, n, prev.as_ref()),
+                        };
                         let (cl2, n2) = spec_apply(&cl, n, &e);
                         if n2 > 12 || !satisfiable(&cl2, n2) {
+                            if st.script.is_some() {
+                                break;
+                            }
                             continue;
                         }
                         // an inverse edit that introduces nothing is judged against both readings
